@@ -36,7 +36,7 @@ out += ["", "%d of %d confirmed changes are caught by at least one quick check."
         "`first pass`: `=` the change was evaluated once; `yes` / `no` whether the checks as they stood when the change was first "
         "evaluated caught it (a `no` followed by a non-empty `caught by` means the check was strengthened afterwards). Per round "
         "(confirmed changes only):", ""]
-for rnd in ("1", "2", "3"):
+for rnd in ("1", "2", "3", "5"):
     rr = [r for r in rows if (("_r" + rnd) in r[0] if rnd != "1" else "_r" not in r[0]) and r[2] == "yes"]
     if rr:
         fp = sum(1 for r in rr if r[3] in ("=", "yes") and r[4] != "-")
